@@ -56,6 +56,10 @@ def make_case(i, rng, tier):
         k = gen.Knobs(rng)
         k.many = rng.choice((65, 80, 100, 256, 300))
         inp = common.gen_input(rng, ("struct", rng.choice(prim_list_types())), k, huge=True)
+    elif rng.random() < 0.06:
+        # types a user declares with the library's public decorators (a vendor enumeration, a narrowed interface type)
+        from .. import synth
+        inp = synth.gen_input(rng)
     else:
         inp = common.gen_input(rng, common.target_for(i, rng), huge="many")
     o = model.decode(inp["root"], inp["data"], cc=inp["cc"], enc=inp["enc"])
